@@ -138,6 +138,7 @@ func (fc *FuncCtx) call(res ssa.Value, c *ssa.CallCommon, st *State, reach strin
 	}
 	if callee := c.StaticCallee(); callee != nil {
 		key := callee.String()
+		fc.errorDropped(res, callee, reach)
 		// closures called directly
 		con := eng.byKey[key]
 		if con != nil && !con.Inline {
@@ -174,6 +175,52 @@ func (fc *FuncCtx) call(res ssa.Value, c *ssa.CallCommon, st *State, reach strin
 	}
 	eng.warn("dynamic call %s without contract: all heaps havoc'd (in %s)", key, fc.fnName)
 	return fc.unknownCall(res, sig, st, key)
+}
+
+// errorDropped: an error returned by a repository function must flow somewhere
+// (a result, a store, a test, an argument); a call whose error result has no
+// use at all silently discards a failure.
+func (fc *FuncCtx) errorDropped(res ssa.Value, callee *ssa.Function, reach string) {
+	if res == nil || !fc.eng.isRepoFn(callee) || fc.top != nil {
+		return
+	}
+	sig := callee.Signature.Results()
+	errIdx := -1
+	for i := 0; i < sig.Len(); i++ {
+		if n, ok := sig.At(i).Type().(*types.Named); ok && n.Obj().Name() == "error" && n.Obj().Pkg() == nil {
+			errIdx = i
+		}
+	}
+	if errIdx < 0 {
+		return
+	}
+	used := false
+	refs := res.Referrers()
+	if refs != nil {
+		for _, r := range *refs {
+			switch x := r.(type) {
+			case *ssa.DebugRef:
+			case *ssa.Extract:
+				if x.Index == errIdx {
+					if er := x.Referrers(); er != nil {
+						for _, rr := range *er {
+							if _, dbg := rr.(*ssa.DebugRef); !dbg {
+								used = true
+							}
+						}
+					}
+				}
+			default:
+				if sig.Len() == 1 {
+					used = true
+				}
+			}
+		}
+	}
+	if !used {
+		n := fc.ordinal("error-dropped")
+		fc.oblige("error-dropped", fmt.Sprintf("%s#%d", shortCallee(callee.String()), n), reach, "false", "the error returned by "+shortCallee(callee.String())+" is discarded", []string{"C04", "C16", "C08"})
+	}
 }
 
 // siteKey: the short callee name used in obligation names and `at call` rules.
